@@ -287,6 +287,10 @@ def check_meiosis(prog, rep, f, prop="C01"):
 
     def seg(t, nidx):
         """Subscript G[i, a:b] / geno[ph, s, a:b] -> (index names..., lower, upper)"""
+        if (nidx == 1 and isinstance(t, ast.Subscript) and isinstance(t.slice, ast.Slice) and isinstance(t.value, ast.Subscript) and isinstance(t.value.value, ast.Name)
+                and isinstance(t.value.slice, ast.Name)):
+            # G[i][a:b]: a slice of the row view is the same storage as G[i, a:b] (G is the numpy allocation checked above, i an integer index)
+            t = ast.Subscript(value=t.value.value, slice=ast.Tuple(elts=[t.value.slice, t.slice], ctx=ast.Load()), ctx=t.ctx)
         if not (isinstance(t, ast.Subscript) and isinstance(t.value, ast.Name) and isinstance(t.slice, ast.Tuple) and len(t.slice.elts) == nidx + 1):
             return None
         *idx, sl = t.slice.elts
